@@ -70,14 +70,22 @@ _RUN = [0]
 class Cluster:
   """n prefetching worker servers + a pool over them."""
 
-  def __init__(self, mods, n_workers, *, prefetch=2, call_timeout=20.0, heartbeat_threshold=90.0, iterate_batch_size=1):
+  def __init__(self, mods, n_workers, *, prefetch=2, call_timeout=20.0, heartbeat_threshold=90.0, iterate_batch_size=1,
+               master=False):
     _RUN[0] += 1
     self.mods = mods
+    # master=True: a CourierServer in the pool's process receives the workers' alive / death notices (`clients=`)
+    self.master = None
+    self._clients = ()
+    if master:
+      self.master = mods.courier_server.CourierServer(f'master-r{_RUN[0]}')
+      self.master.start()
+      self._clients = (self.master.address,)
     self._prefetch = prefetch
     self.names = [f'w{i + 1}-r{_RUN[0]}' for i in range(n_workers)]
     self.servers = []
     for name in self.names:
-      s = mods.courier_server.PrefetchedCourierServer(name, prefetch_size=prefetch)
+      s = mods.courier_server.PrefetchedCourierServer(name, prefetch_size=prefetch, clients=self._clients)
       s.start()
       self.servers.append(s)
     self.pool = mods.courier_worker.WorkerPool(self.names, call_timeout=call_timeout,
@@ -91,7 +99,7 @@ class Cluster:
     with fakecourier.BOARD.lock:
       fakecourier.BOARD.dead.add(self.names[worker_index])
 
-  def restart(self, worker_index):
+  def restart(self, worker_index, same_object=False):
     """The worker rejoins: a NEW server (as a new process would be) under the same address."""
     name = self.names[worker_index]
     old = self.servers[worker_index]
@@ -99,13 +107,32 @@ class Cluster:
       old._request_shutdown()
     except Exception:  # pylint: disable=broad-exception-caught
       pass
-    s = self.mods.courier_server.PrefetchedCourierServer(name, prefetch_size=self._prefetch)
+    if same_object:
+      s = old            # stop() ... start() on the same server object
+    else:
+      # CourierServer is a singleton per (address, auto-shutdown, prefetch size): a different auto-shutdown value
+      # gives a distinct object under the same address, as a new process would have
+      self._incarnation = getattr(self, '_incarnation', 0) + 1
+      s = self.mods.courier_server.PrefetchedCourierServer(name, prefetch_size=self._prefetch, clients=self._clients,
+                                                           timeout_secs=10200 + self._incarnation)
     s.start()            # Start() of the transport clears the dead mark of the address
     self.servers[worker_index] = s
     return s
 
+  def graceful_stop(self, worker_index):
+    """The worker announces its death (is_alive=False notice to its clients) and stops."""
+    s = self.servers[worker_index]
+    s.stop().join(timeout=5)
+    if self.master is not None:
+      # the notice is sent asynchronously: wait until it has been recorded, so that a following restart's alive
+      # notice cannot overtake it inside the in-process transport
+      reg = self.mods.courier_utils._worker_registry
+      t0 = _real_time.time()
+      while reg.data.get(self.names[worker_index], 0) is not None and _real_time.time() - t0 < 3:
+        _real_time.sleep(0.002)
+
   def close(self):
-    for s in self.servers:
+    for s in self.servers + ([self.master] if self.master is not None else []):
       try:
         s._request_shutdown()
         t = s._thread
